@@ -62,7 +62,7 @@ META = {
                    "the real forward map produced, its determinant is expanded exactly and compared with exp(2·ladj). Dimensions "
                    "and tree shapes are enumerated (vector length 1..5, every topology up to 5 taxa, batch ranks 1..2). "
                    "torch's own transforms (Exp, Sigmoid, Affine, StickBreaking) are dependencies with assumed contracts.",
-    "bound": "vector length 1..4 quick / 1..5 thorough; node-height transforms on all topologies T<=4 quick / T<=5 thorough; triangular-exp dim<=3",
+    "bound": "vector length 1..4 quick / 1..6,8 thorough; node-height transforms on all topologies T<=4 quick / all T<=5 + 63 of the 945 T=6 topologies thorough; triangular-exp dim<=3",
     "trusted_base": [
         "symbolic differentiation rules of vt.nf.diff (chain rule per function symbol) as the meaning of 'automatic-differentiation Jacobian'; cross-checked numerically against torch.autograd.functional.jacobian on every run",
         "torch.autograd.functional.jacobian inside CumSumExpTransform.log_abs_det_jacobian replaced by the contract 'returns the Jacobian of the closure'",
@@ -391,7 +391,7 @@ def obligations(tier, seed):
     def add(name, factory, args, clause, tag="V", **kw):
         obs.append(scenario_ob("C07", name, tag, factory, args, clause=clause, funcs=FUNCS, seed=seed, **kw))
 
-    ns = [1, 2, 3, 4] if tier == "quick" else [1, 2, 3, 4, 5]
+    ns = [1, 2, 3, 4] if tier == "quick" else [1, 2, 3, 4, 5, 6, 8]
     for kind in ("cumsum", "cumsumexp", "softplus", "cumsumsoftplus", "log"):
         for n in ns:
             add("C07.vector.%s[n=%d]" % (kind, n), "scn_vector", (kind, n, ()), "log-Jacobian and inverse (%s)" % kind)
@@ -407,11 +407,11 @@ def obligations(tier, seed):
     for kind in ('ratios', 'shifts'):
         obs.append(ob_reparam_history(kind, 4 if tier == 'quick' else 5))
     patterns = list(treemodels.DATE_PATTERNS)
-    for T in ((3, 4) if tier == "quick" else (3, 4, 5)):
+    for T in ((3, 4) if tier == "quick" else (3, 4, 5, 6)):
         for k, ts in enumerate(_tree_strs(T)):
             ts = repr(trees.shuffle_children(ast.literal_eval(ts), rng)).replace(" ", "")
-            if T == 5 and k % 4:
-                continue
+            if T == 6 and k % 15:
+                continue   # 63 of the 945 six-taxon topologies (every topology up to 5 taxa)
             pat = patterns[k % 4]
             for kind in ("ratios", "shifts"):
                 add("C07.nodeheight.%s[tree=%s,dates=%s]" % (kind, ts, pat), "scn_nodeheight", (ts, pat, kind, ()), "node-height transform log-Jacobian", max_paths=3000)
